@@ -5,7 +5,9 @@ package fzf
 // reference that works on the query AST with plain loops.
 
 import (
+	"encoding/json"
 	"fmt"
+	"os"
 	"strings"
 	"testing"
 	"unicode"
@@ -674,5 +676,87 @@ func TestVerif_C01_cache(t *testing.T) {
 				r.State()
 			}
 		}
+	}
+}
+
+// ---------------------------------------------------------------- export for the CLI layer
+// Writes, for every configuration and every query of a core set, the reference set of matching lines. The python
+// side runs the real binary (`fzf --filter`) with the corresponding options and compares the emitted set.
+func TestVerif_C01_export(t *testing.T) {
+	r := kit.Start("C01", "cli-export")
+	if r == nil {
+		t.Skip()
+	}
+	defer r.Finish()
+	if r.Shard != 0 {
+		return
+	}
+	lines := c01Lines(3)
+	type entry struct {
+		Exact   bool   `json:"exact"`
+		Case    int    `json:"case"`
+		Literal bool   `json:"literal"`
+		Forward bool   `json:"forward"`
+		V1      bool   `json:"v1"`
+		NoExt   bool   `json:"noext"`
+		Query   string `json:"query"`
+		Match   []int  `json:"match"`
+	}
+	var out struct {
+		Lines   []string `json:"lines"`
+		Entries []entry  `json:"entries"`
+	}
+	for _, l := range lines {
+		out.Lines = append(out.Lines, l.s)
+	}
+	var queries [][][]rterm
+	for k := rkFuzzy; k <= rkEqual; k++ {
+		for _, neg := range []bool{false, true} {
+			for _, txt := range []string{"a", "ab", "A", "á", "a "} {
+				queries = append(queries, [][]rterm{{{k, neg, txt}}})
+			}
+		}
+	}
+	queries = append(queries,
+		[][]rterm{{{rkFuzzy, false, "a"}}, {{rkFuzzy, false, "b"}}},
+		[][]rterm{{{rkFuzzy, false, "a"}, {rkPrefix, false, "b"}}},
+		[][]rterm{{{rkExact, false, "ab"}}, {{rkFuzzy, true, "A"}, {rkSuffix, false, "a"}}},
+		[][]rterm{{{rkBoundary, false, "a"}}, {{rkEqual, true, "a"}}},
+	)
+	for _, c := range c01Configs() {
+		for _, g := range queries {
+			pg := prepGroups(g, c)
+			e := entry{Exact: c.exactMode, Case: c.caseMode, Literal: !c.normalize, Forward: c.forward, V1: c.v1, Query: c01RenderQuery(g, c.exactMode)}
+			for i, l := range lines {
+				if refQuery(pg, l) {
+					e.Match = append(e.Match, i)
+				}
+			}
+			out.Entries = append(out.Entries, e)
+			r.Eval()
+		}
+		// --no-extended: the whole string is one term
+		for _, q := range []string{"a b", "!a", "'a", "a|b", "^a", "a$"} {
+			kind := rkFuzzy
+			if c.exactMode {
+				kind = rkExact
+			}
+			pt := prepTerm(rterm{kind, false, q}, c.caseMode, c.normalize)
+			e := entry{Exact: c.exactMode, Case: c.caseMode, Literal: !c.normalize, Forward: c.forward, V1: c.v1, NoExt: true, Query: q}
+			for i, l := range lines {
+				if pt.holds(l) {
+					e.Match = append(e.Match, i)
+				}
+			}
+			out.Entries = append(out.Entries, e)
+			r.Eval()
+		}
+	}
+	b, err := json.Marshal(&out)
+	if err != nil {
+		t.Fatal(err)
+	}
+	if err := os.WriteFile(os.Getenv("VERIF_OUT")+".export", b, 0o644); err != nil {
+		t.Fatal(err)
 	}
 }
